@@ -65,3 +65,15 @@ pub broadcast proof fn axiom_starts_with_char(s: Seq<char>, p: char, r: bool)
     ensures r == (s.len() > 0 && s[0] == p)
 {}
 
+#[verifier::external_body]
+pub broadcast proof fn axiom_starts_with_str(s: Seq<char>, p: &str, r: bool)
+    requires #[trigger] starts_with_post::<&str>(s, p, r)
+    ensures r == (s.len() >= p@.len() && s.take(p@.len() as int) == p@)
+{}
+// R34: `s[n..]` (str slicing, std: panics unless n is a char boundary inside the string).  Stated for the case the crate
+// uses: the first n characters are ASCII, so byte offset n is character offset n
+#[verifier::external_body]
+pub fn verif_str_from<'a>(s: &'a str, n: usize) -> (r: &'a str)
+    requires n <= s@.len(), forall|i: int| 0 <= i < n ==> (#[trigger] s@[i] as u32) < 128,
+    ensures r@ == s@.skip(n as int)
+{ &s[n..] }
